@@ -187,8 +187,27 @@ def case(rng, cat=None):
         kind = 0.1
     text, out, keys = gen_select(rng, cat, rng.choice([0, 1, 1, 2]))
     expected = expected_select(out)
-    if kind < 0.49:
+    if kind < 0.43:
         pass
+    elif kind < 0.49:                                   # LATERAL VIEW: the exploded columns carry the sources of the function's arguments (referenced unqualified)
+        a = cat.tables[0]
+        ca, da = a[2][0], a[2][-1]
+        j = rng.random()
+        if ca in VARLIKE or da in VARLIKE or any(c in ("v", "k2", "v2") for t in cat.tables for c in t[2]):
+            pass                                        # a base column spelled like the view's column would make the reference ambiguous
+        elif j < 0.4 or len(cat.tables) < 2 or cat.tables[1][1] == a[1]:
+            text = "SELECT v AS o1, %s AS o2, f(v, %s) AS o3 FROM %s LATERAL VIEW %sexplode(%s) tt AS v" % (da, da, cat.key(a), rng.choice(["", "OUTER "]), ca)
+            return cat, text, expected_select([("o1", {src(a, ca)}), ("o2", {src(a, da)}), ("o3", {src(a, ca), src(a, da)})]), [cat.key(a)]
+        elif j < 0.7:
+            text = "SELECT k2 AS o1, v2 AS o2 FROM %s LATERAL VIEW explode(g(%s, %s)) tt AS k2, v2" % (cat.key(a), ca, da)
+            return cat, text, expected_select([("o1", {src(a, ca), src(a, da)}), ("o2", {src(a, ca), src(a, da)})]), [cat.key(a)]
+        else:
+            b = cat.tables[1]
+            cb, db_ = b[2][0], b[2][-1]
+            if cb not in VARLIKE and db_ not in VARLIKE and not ({ca, da} & set(b[2])) and not ({cb, db_} & set(a[2])):
+                text = ("SELECT %s AS o1, v AS o2 FROM %s LATERAL VIEW explode(%s) tt AS v UNION ALL SELECT %s, v FROM %s LATERAL VIEW explode(%s) uu AS v"
+                        % (da, cat.key(a), ca, db_, cat.key(b), cb))
+                return cat, text, expected_select([("o1", {src(a, da), src(b, db_)}), ("o2", {src(a, ca), src(b, cb)})]), [cat.key(a), cat.key(b)]
     elif kind < 0.55:                                   # self-join: one table under two aliases
         t = cat.tables[0]
         c = t[2][0]
